@@ -6,12 +6,12 @@ cd $WT || exit 2
 git checkout -q -- . ; rm -f tests/demo.rs
 export CARGO_TARGET_DIR=$WT/target CARGO_NET_OFFLINE=true
 git apply $OUT/patch.diff || { echo "PATCH DOES NOT APPLY"; exit 2; }
-echo "== build+suite with change"
-cargo test --workspace --offline 2>&1 | grep -E "^test result|FAILED|failed|error" | sort | uniq -c | head -20
+S=$(cargo test --workspace --offline 2>&1)
+echo "suite with change: $(echo "$S" | grep -c '^test result: ok') ok result lines, $(echo "$S" | grep -c '^test result: FAILED') FAILED result lines, $(echo "$S" | grep -E '^test result' | sed -E 's/.* ([0-9]+) passed.*/\1/' | paste -sd+ | bc) passed, compile errors: $(echo "$S" | grep -c '^error')"
 cp $OUT/demo.rs tests/demo.rs
-echo "== demo with change (expect failure)"
-cargo test --offline --test demo 2>&1 | grep -E "^test result|^test .* (ok|FAILED)|error" | head
+D=$(cargo test --offline --test demo 2>&1)
+echo "demo with change   : $(echo "$D" | grep -E '^test result' | head -1)"
 git checkout -q -- .
-echo "== demo without change (expect pass)"
-cargo test --offline --test demo 2>&1 | grep -E "^test result|^test .* (ok|FAILED)|error" | head
+D=$(cargo test --offline --test demo 2>&1)
+echo "demo without change: $(echo "$D" | grep -E '^test result' | head -1)"
 rm -f tests/demo.rs
